@@ -76,6 +76,7 @@ type vfC13Begin struct {
 	Obs     bool     `json:"observer"`
 	Entries string   `json:"entries"`
 	Wire    bool     `json:"wire"` // end-to-end observation: "start" is logged by the node on receipt
+	Setter  string   `json:"setter"`
 }
 
 type vfC13Summary struct {
@@ -145,6 +146,7 @@ type vfC13Run struct {
 	stmt     string // "query" | "batch"
 	observer bool
 	entries  string // batch: all | none | mixed
+	setter   string // how the statement got its retry policy: own | nil | default
 }
 
 func vfC13Gid() int64 {
@@ -212,6 +214,36 @@ func vfC13Class(r *vfC13Run, err error) (class string, aid int) {
 	return "other", 0
 }
 
+// server error classes: "unavail_alive|dead", "read_timeout" / "read_timeout_data",
+// "wt_<write type>_<recv|none>" for every write type of the protocol
+var vfC13WriteTypes = []struct{ short, wire string }{{"simple", "SIMPLE"}, {"batch", "BATCH"}, {"counter", "COUNTER"},
+	{"unlogged", "UNLOGGED_BATCH"}, {"cas", "CAS"}, {"batchlog", "BATCH_LOG"}, {"view", "VIEW"}, {"cdc", "CDC"}}
+
+func vfC13ServerClasses() []string {
+	cs := []string{"unavail_alive", "unavail_dead", "read_timeout", "read_timeout_data"}
+	for _, w := range vfC13WriteTypes {
+		cs = append(cs, "wt_"+w.short+"_recv", "wt_"+w.short+"_none")
+	}
+	return cs
+}
+
+// write type (wire name) and received count of a "wt_*" class
+func vfC13ParseWt(class string) (wire string, recv int, ok bool) {
+	p := strings.Split(class, "_")
+	if len(p) != 3 || p[0] != "wt" {
+		return "", 0, false
+	}
+	for _, w := range vfC13WriteTypes {
+		if w.short == p[1] {
+			if p[2] == "recv" {
+				recv = 1
+			}
+			return w.wire, recv, true
+		}
+	}
+	return "", 0, false
+}
+
 func vfC13TypedClass(err error) string {
 	switch t := err.(type) {
 	case *RequestErrUnavailable:
@@ -220,16 +252,18 @@ func vfC13TypedClass(err error) string {
 		}
 		return "unavail_dead"
 	case *RequestErrWriteTimeout:
-		switch {
-		case t.WriteType == "UNLOGGED_BATCH":
-			return "wt_unlogged"
-		case t.WriteType == "CAS":
-			return "wt_cas"
-		case t.Received > 0:
-			return "wt_simple_recv"
+		for _, w := range vfC13WriteTypes {
+			if w.wire == t.WriteType {
+				if t.Received > 0 {
+					return "wt_" + w.short + "_recv"
+				}
+				return "wt_" + w.short + "_none"
+			}
 		}
-		return "wt_simple_none"
 	case *RequestErrReadTimeout:
+		if t.DataPresent != 0 {
+			return "read_timeout_data"
+		}
 		return "read_timeout"
 	}
 	return "other"
@@ -254,16 +288,13 @@ func (r *vfC13Run) mkErr(class string, aid int) error {
 		return &RequestErrUnavailable{Consistency: Quorum, Required: 2, Alive: 1}
 	case "unavail_dead":
 		return &RequestErrUnavailable{Consistency: Quorum, Required: 2, Alive: 0}
-	case "wt_simple_recv":
-		return &RequestErrWriteTimeout{Consistency: Quorum, Received: 1, BlockFor: 2, WriteType: "SIMPLE"}
-	case "wt_simple_none":
-		return &RequestErrWriteTimeout{Consistency: Quorum, Received: 0, BlockFor: 2, WriteType: "BATCH"}
-	case "wt_unlogged":
-		return &RequestErrWriteTimeout{Consistency: Quorum, Received: 0, BlockFor: 2, WriteType: "UNLOGGED_BATCH"}
-	case "wt_cas":
-		return &RequestErrWriteTimeout{Consistency: Quorum, Received: 1, BlockFor: 2, WriteType: "CAS"}
 	case "read_timeout":
 		return &RequestErrReadTimeout{Consistency: Quorum, Received: 1, BlockFor: 2}
+	case "read_timeout_data":
+		return &RequestErrReadTimeout{Consistency: Quorum, Received: 1, BlockFor: 2, DataPresent: 1}
+	}
+	if wire, recv, ok := vfC13ParseWt(class); ok {
+		return &RequestErrWriteTimeout{Consistency: Quorum, Received: recv, BlockFor: 2, WriteType: wire}
 	}
 	return &vfC13Err{class: class, aid: aid} // e_* classes, "timeout", "connloss"
 }
@@ -361,7 +392,6 @@ func (r *vfC13Run) noteExpiredLocked() {
 // shared counter (Attempts()), with and without an observer installed.
 type vfC13Core struct {
 	vrun *vfC13Run
-	vrt  RetryPolicy
 }
 
 type vfC13Query struct {
@@ -374,9 +404,8 @@ type vfC13Batch struct {
 	vfC13Core
 }
 
-func (q *vfC13Query) retryPolicy() RetryPolicy { return q.vrt }
-func (q *vfC13Query) borrowForExecution()      { q.vrun.borrow() }
-func (q *vfC13Query) releaseAfterExecution()   { q.vrun.release() }
+func (q *vfC13Query) borrowForExecution()    { q.vrun.borrow() }
+func (q *vfC13Query) releaseAfterExecution() { q.vrun.release() }
 func (q *vfC13Query) execute(ctx context.Context, conn *Conn) *Iter {
 	return q.vrun.doExecute(ctx, conn)
 }
@@ -384,9 +413,8 @@ func (q *vfC13Query) attempt(keyspace string, end, start time.Time, iter *Iter, 
 	q.vrun.doAttempt(func() { q.Query.attempt(keyspace, end, start, iter, host) }, iter, host)
 }
 
-func (b *vfC13Batch) retryPolicy() RetryPolicy { return b.vrt }
-func (b *vfC13Batch) borrowForExecution()      { b.vrun.borrow() }
-func (b *vfC13Batch) releaseAfterExecution()   { b.vrun.release() }
+func (b *vfC13Batch) borrowForExecution()    { b.vrun.borrow() }
+func (b *vfC13Batch) releaseAfterExecution() { b.vrun.release() }
 func (b *vfC13Batch) execute(ctx context.Context, conn *Conn) *Iter {
 	return b.vrun.doExecute(ctx, conn)
 }
@@ -683,8 +711,7 @@ func (c vfC13Cfg) outsFree() []string {
 	if c.Polkind == "script" || c.Polkind == "none" {
 		return []string{"e_retry", "e_next", "e_ignore", "e_rethrow", "e_unknown", "timeout", "connloss"}
 	}
-	return []string{"unavail_alive", "unavail_dead", "wt_simple_recv", "wt_simple_none", "wt_unlogged", "wt_cas",
-		"read_timeout", "timeout", "connloss", "e_next"}
+	return append(vfC13ServerClasses(), "timeout", "connloss", "e_next")
 }
 
 // ---------------------------------------------------------------- set-up
@@ -697,6 +724,7 @@ type vfC13Opts struct {
 	timeout   time.Duration // > 0: the caller's context is context.WithTimeout(timeout)
 	scripted  bool          // the caller's context is a vfC13Ctx (deadline expires on command)
 	specDelay time.Duration // > 0: SpeculativeExecutionPolicy.Delay()
+	setter    int           // which way the statement gets its retry policy
 }
 
 // per-entry idempotence of a batch: all entries idempotent when the scenario says the statement is
@@ -777,7 +805,12 @@ func vfC13NewRun(cfg vfC13Cfg, seed int64, free bool, polName string, roundRobin
 	default:
 		r.ctx, r.cancel = context.WithCancel(context.Background())
 	}
-	var spec SpeculativeExecutionPolicy = &NonSpeculativeExecution{}
+	// The statement gets its policies the way an application gives them: the fields hold what
+	// defaultsFromSession / NewBatch would have put there (a session default retry policy, or none;
+	// NonSpeculativeExecution), and the statement's own REAL setters override that - including
+	// RetryPolicy(nil), which switches retrying off for the statement.  retryPolicy() and
+	// speculativeExecutionPolicy() are the statements' own.
+	var spec SpeculativeExecutionPolicy
 	if cfg.K > 0 {
 		d := time.Duration(2+r.rng.Intn(3)) * time.Millisecond
 		if free {
@@ -791,25 +824,29 @@ func vfC13NewRun(cfg vfC13Cfg, seed int64, free bool, polName string, roundRobin
 	core := vfC13Core{vrun: r}
 	var fq ExecutableQuery
 	var setRT func(RetryPolicy)
+	var setSpec func(SpeculativeExecutionPolicy)
+	var presetRT func(RetryPolicy)
 	obs := &vfC13Obs{}
 	if stmt == "batch" {
-		b := &Batch{Type: UnloggedBatch, Cons: Quorum, spec: spec, context: r.ctx, keyspace: "vf",
+		b := &Batch{Type: UnloggedBatch, Cons: Quorum, spec: &NonSpeculativeExecution{}, context: r.ctx, keyspace: "vf",
 			metrics: &queryMetrics{m: map[string]*hostMetrics{}}, routingInfo: &queryRoutingInfo{}}
 		b.Entries, r.entries = vfC13Entries(cfg.Idem, o.entries)
 		if observer {
 			b.observer = obs
 		}
 		fb := &vfC13Batch{Batch: b, vfC13Core: core}
-		fq, setRT = fb, func(p RetryPolicy) { fb.vrt = p }
+		fq, setRT, presetRT = fb, func(p RetryPolicy) { b.RetryPolicy(p) }, func(p RetryPolicy) { b.rt = p }
+		setSpec = func(sp SpeculativeExecutionPolicy) { b.SpeculativeExecutionPolicy(sp) }
 	} else {
 		q := &Query{stmt: "vf-c13", refCount: 1, metrics: &queryMetrics{m: map[string]*hostMetrics{}},
-			routingInfo: &queryRoutingInfo{}, context: r.ctx, cons: Quorum, spec: spec}
+			routingInfo: &queryRoutingInfo{}, context: r.ctx, cons: Quorum, spec: &NonSpeculativeExecution{}}
 		q.Idempotent(cfg.Idem)
 		if observer {
 			q.observer = obs
 		}
 		f := &vfC13Query{Query: q, vfC13Core: core}
-		fq, setRT = f, func(p RetryPolicy) { f.vrt = p }
+		fq, setRT, presetRT = f, func(p RetryPolicy) { q.RetryPolicy(p) }, func(p RetryPolicy) { q.rt = p }
+		setSpec = func(sp SpeculativeExecutionPolicy) { q.SetSpeculativeExecutionPolicy(sp) }
 	}
 	var real RetryPolicy
 	switch cfg.Polkind {
@@ -830,8 +867,25 @@ func vfC13NewRun(cfg vfC13Cfg, seed int64, free bool, polName string, roundRobin
 		}
 		real = p
 	}
-	if real != nil {
+	if spec != nil {
+		setSpec(spec)
+	}
+	// the session default the statement starts from (NewCluster's is SimpleRetryPolicy{NumRetries: 3})
+	sessionDefault := &vfC13RT{run: r, real: &SimpleRetryPolicy{NumRetries: 3}}
+	switch {
+	case real == nil && o.setter%2 == 0:
+		presetRT(sessionDefault)
+		setRT(nil) // retrying switched off for this statement
+		r.setter = "nil"
+	case real == nil:
+		r.setter = "default" // a session without a default retry policy
+	case polName == "simple" && cfg.Poln == 3 && o.setter%2 == 1:
+		presetRT(sessionDefault)
+		r.setter = "default" // the statement keeps the session default
+	default:
+		presetRT(sessionDefault)
 		setRT(&vfC13RT{run: r, real: real})
+		r.setter = "own"
 	}
 	return r, ex, fq
 }
@@ -878,7 +932,7 @@ func vfC13Replay(c *vfC13Case, polName string) (sum vfC13Summary, begin vfC13Beg
 	// statement kind and observer vary with the case number, independently of the policy (id % 3)
 	stmt := []string{"query", "batch"}[(c.Id/3)%2]
 	r, ex, fq := vfC13NewRun(c.Cfg, int64(c.Id), false, polName, false,
-		vfC13Opts{stmt: stmt, observer: (c.Id/6)%2 == 1, entries: c.Id / 12, scripted: c.Cfg.Cancel == "deadline"})
+		vfC13Opts{stmt: stmt, observer: (c.Id/6)%2 == 1, entries: c.Id / 12, scripted: c.Cfg.Cancel == "deadline", setter: c.Id / 5})
 	sum = vfC13Summary{Id: c.Id, Mode: "replay", Policy: polName}
 	for _, ev := range c.Hist {
 		if ev.Ev == "end" {
@@ -1087,7 +1141,7 @@ func vfC13SameHist(a, b []vfC13Ev) bool {
 
 func (r *vfC13Run) begin(id int, mode string) vfC13Begin {
 	b := vfC13Begin{Ev: "begin", Id: id, Hosts: append([]string{}, r.offered...), Polkind: r.cfg.Polkind, Poln: r.cfg.Poln,
-		Allow: append([]int{}, r.cfg.Allow...), K: r.cfg.K, Idem: r.cfg.Idem, Policy: r.polName, Mode: mode, Stmt: r.stmt, Obs: r.observer, Entries: r.entries}
+		Allow: append([]int{}, r.cfg.Allow...), K: r.cfg.K, Idem: r.cfg.Idem, Policy: r.polName, Mode: mode, Stmt: r.stmt, Obs: r.observer, Entries: r.entries, Setter: r.setter}
 	return b
 }
 
@@ -1129,7 +1183,7 @@ func vfC13Free(id int, seed int64) (sum vfC13Summary, begin vfC13Begin, log []vf
 	}
 	roundRobin := rng.Intn(2) == 0
 	stmt := []string{"query", "batch"}[rng.Intn(2)]
-	opts := vfC13Opts{stmt: stmt, observer: rng.Intn(2) == 0, entries: rng.Intn(4)}
+	opts := vfC13Opts{stmt: stmt, observer: rng.Intn(2) == 0, entries: rng.Intn(4), setter: rng.Intn(2)}
 	// the caller's context: never ends / is cancelled by the caller / has a (real) deadline
 	ctxForm := []string{"none", "none", "none", "none", "none", "cancel", "deadline", "deadline"}[rng.Intn(8)]
 	if rounds {
